@@ -447,8 +447,7 @@ def run(rep):
               "", line=site.call.lineno)
     for pn in ("crps_decompos", "reliability_table"):
         v = a.get(pn)
-        rep.check(v is not None and v[1].init == ("zeros",) and v[1].fresh, "R03.d", "stat/metrics.py", "crps",
-                  f"`{pn}` (accumulated by the kernel) is a fresh zero array", f"argument `{ast.unparse(v[0]) if v else '?'}` init {v[1].init if v else None}", line=site.call.lineno)
+        xlayer.check_init(rep, v, ("zeros",), "R03.d", "stat/metrics.py", "crps", f"`{pn}` (accumulated by the kernel) is a fresh zero array", site.call.lineno)
     ck = mod.funcs.get("__check_ensemble_data")
     if ck is None:
         raise AnalysisError("stat/metrics.py: __check_ensemble_data not found")
